@@ -25,8 +25,8 @@ theorem never_early (F : TOps) (s : St) (now : Nat) (h : (check F s now).2 = .ti
 /-- … for every float implementation, first-interval constant, limit, start time, clock sequence
 and number of instructions executed before: the `n`-th check of an entry started at `t0` reports a
 timeout only if the clock has advanced by at least `limit`. -/
-theorem never_early_run (F : TOps) (rate cap : UInt64) (limit t0 : Nat) (clk : Nat → Nat) (n : Nat)
-    (h : pollAt F clk (new F rate cap limit t0) n = .timeout) : t0 + limit ≤ clk n := by
+theorem never_early_run (F : TOps) (rate cap : UInt64) (maxI : Nat) (limit t0 : Nat) (clk : Nat → Nat) (n : Nat)
+    (h : pollAt F clk (new F rate cap maxI limit t0) n = .timeout) : t0 + limit ≤ clk n := by
   have := never_early F _ _ h
   rw [runN_deadline] at this
   exact this
@@ -62,11 +62,15 @@ theorem poll_gap (F : TOps) (clk : Nat → Nat) (s : St) (i : Nat) (h : s.sinceL
     · rw [h2]; simp
     · rw [h2]; simp
 
-/-- the state reached by a clock read that did not time out -/
+/-- the state reached by a clock read that did not time out: the new interval is the code's float
+formula capped at `MAX_INTERVAL_INSTRUCTIONS` -/
 theorem interval_update (F : TOps) (s : St) (now : Nat) (h : (check F s now).2 = .ok) :
     (check F s now).1.intervalInstr =
-        asUsize F (F.mul (F.ofNat s.intervalInstr)
-          (F.div (fmin F s.intervalSeconds (secsF F (s.deadline - now))) (secsF F (now - s.lastCheck)))) ∧
+        min (asUsize F (F.mul (F.ofNat s.intervalInstr)
+          (F.div (fmin F s.intervalSeconds (secsF F (s.deadline - now))) (secsF F (now - s.lastCheck)))))
+          s.maxInterval ∧
+    (check F s now).1.intervalInstr ≤ s.maxInterval ∧
+    (check F s now).1.maxInterval = s.maxInterval ∧
     (check F s now).1.sinceLast = 0 ∧
     (check F s now).1.lastCheck = now ∧
     (check F s now).1.deadline = s.deadline ∧
@@ -91,7 +95,7 @@ theorem poll_gap_after_read (F : TOps) (clk : Nat → Nat) (s : St) (now i : Nat
     (∀ j, j < s'.intervalInstr → (check F (runN F clk j s' i) (clk (i + j))).2 = .skip) ∧
     (check F (runN F clk s'.intervalInstr s' i) (clk (i + s'.intervalInstr))).2 ≠ .skip := by
   intro s'
-  have h0 : s'.sinceLast = 0 := (interval_update F s now h).2.1
+  have h0 : s'.sinceLast = 0 := (interval_update F s now h).2.2.2.1
   have := poll_gap F clk s' i (by omega)
   simpa [h0] using this
 
@@ -191,17 +195,17 @@ are expensive (F-C08-2): see `first_interval_unobserved`. Wall-clock behaviour i
 
 /-- The first check that reports the timeout happens no later than
 `max (t0 + (I0 + 1)·tmax, deadline + (limit/10)·(tmax/tmin − 1) + 2·tmax)`. -/
-theorem bounded_slack (F : TOps) (rate cap : UInt64) (limit t0 tmin tmax : Nat) (clk : Nat → Nat)
+theorem bounded_slack (F : TOps) (rate cap : UInt64) (maxI : Nat) (limit t0 tmin tmax : Nat) (clk : Nat → Nat)
     (hc : Costs clk t0 tmin tmax)
-    (hs : ∀ j, pollAt F clk (new F rate cap limit t0) j = .ok →
-      UpdateSound F (runN F clk j (new F rate cap limit t0) 0) (clk j))
+    (hs : ∀ j, pollAt F clk (new F rate cap maxI limit t0) j = .ok →
+      UpdateSound F (runN F clk j (new F rate cap maxI limit t0) 0) (clk j))
     (n : Nat)
-    (hfirst : ∀ j, j < n → pollAt F clk (new F rate cap limit t0) j ≠ .timeout)
-    (hn : pollAt F clk (new F rate cap limit t0) n = .timeout) :
-    clk n ≤ t0 + ((new F rate cap limit t0).intervalInstr + 1) * tmax ∨
+    (hfirst : ∀ j, j < n → pollAt F clk (new F rate cap maxI limit t0) j ≠ .timeout)
+    (hn : pollAt F clk (new F rate cap maxI limit t0) n = .timeout) :
+    clk n ≤ t0 + ((new F rate cap maxI limit t0).intervalInstr + 1) * tmax ∨
     clk n * tmin ≤ (t0 + limit) * tmin + (limit / 10) * (tmax - tmin) + 2 * tmin * tmax := by
-  have hinv := inv_run F rate cap limit t0 tmin tmax clk hc hs n hfirst
-  generalize hS : runN F clk n (new F rate cap limit t0) 0 = s at hinv
+  have hinv := inv_run F rate cap maxI limit t0 tmin tmax clk hc hs n hfirst
+  generalize hS : runN F clk n (new F rate cap maxI limit t0) 0 = s at hinv
   have hn' : (check F s (clk n)).2 = .timeout := by rw [← hS]; exact hn
   have heq : s.sinceLast = s.intervalInstr := by
     rcases check_cases F s (clk n) with ⟨_, h2⟩ | ⟨h1, _, _⟩ | ⟨_, _, h2⟩
@@ -220,47 +224,117 @@ theorem bounded_slack (F : TOps) (rate cap : UInt64) (limit t0 tmin tmax : Nat) 
 /-- Liveness + `never_early` + `bounded_slack` together: under the cost and rounding hypotheses some
 check reports the timeout; the first one that does so reads a clock value at or past the deadline
 and within the bound. -/
-theorem detected_within_slack (F : TOps) (rate cap : UInt64) (limit t0 tmin tmax : Nat) (clk : Nat → Nat)
+theorem detected_within_slack (F : TOps) (rate cap : UInt64) (maxI : Nat) (limit t0 tmin tmax : Nat) (clk : Nat → Nat)
     (hc : Costs clk t0 tmin tmax)
-    (hs : ∀ j, pollAt F clk (new F rate cap limit t0) j = .ok →
-      UpdateSound F (runN F clk j (new F rate cap limit t0) 0) (clk j)) :
-    ∃ n, pollAt F clk (new F rate cap limit t0) n = .timeout ∧
-      (∀ j, j < n → pollAt F clk (new F rate cap limit t0) j ≠ .timeout) ∧
+    (hs : ∀ j, pollAt F clk (new F rate cap maxI limit t0) j = .ok →
+      UpdateSound F (runN F clk j (new F rate cap maxI limit t0) 0) (clk j)) :
+    ∃ n, pollAt F clk (new F rate cap maxI limit t0) n = .timeout ∧
+      (∀ j, j < n → pollAt F clk (new F rate cap maxI limit t0) j ≠ .timeout) ∧
       t0 + limit ≤ clk n ∧
-      (clk n ≤ t0 + ((new F rate cap limit t0).intervalInstr + 1) * tmax ∨
+      (clk n ≤ t0 + ((new F rate cap maxI limit t0).intervalInstr + 1) * tmax ∨
        clk n * tmin ≤ (t0 + limit) * tmin + (limit / 10) * (tmax - tmin) + 2 * tmin * tmax) := by
   have hlow := clk_lower clk t0 tmin tmax hc
-  obtain ⟨n1, _, _, hn1⟩ := eventually_detected F clk (new F rate cap limit t0) limit (by simp [new])
+  obtain ⟨n1, _, _, hn1⟩ := eventually_detected F clk (new F rate cap maxI limit t0) limit (by simp [new])
     (fun n hn => by have := hlow n; simp [new]; omega)
-  obtain ⟨n, _, hn, hmin⟩ := least_of_exists (fun k => pollAt F clk (new F rate cap limit t0) k = .timeout) n1 hn1
-  exact ⟨n, hn, hmin, never_early_run F rate cap limit t0 clk n hn,
-    bounded_slack F rate cap limit t0 tmin tmax clk hc hs n hmin hn⟩
+  obtain ⟨n, _, hn, hmin⟩ := least_of_exists (fun k => pollAt F clk (new F rate cap maxI limit t0) k = .timeout) n1 hn1
+  exact ⟨n, hn, hmin, never_early_run F rate cap maxI limit t0 clk n hn,
+    bounded_slack F rate cap maxI limit t0 tmin tmax clk hc hs n hmin hn⟩
+
+/-- Slack with the interval cap (aa1a96f), independent of what ran before: if consecutive checks
+are at most `tmax` apart (the cost of the most expensive instruction, clock read included) and the
+first interval respects the cap (`hfirst`: a float fact about `min(baseline, 100.0) as usize`, which the
+harness observes as 100 ≤ 1000), then the first check that reports the timeout does so no later than
+`deadline + (maxInterval + 1) · tmax`. No lower bound on instruction cost and no hypothesis on the
+rounding of the interval update are needed: the cheap/expensive ratio of earlier phases
+(`bounded_slack`'s `tmax/tmin` term, F-C08-8) no longer enters. -/
+theorem bounded_slack_capped (F : TOps) (rate cap : UInt64) (maxI : Nat) (limit t0 tmax : Nat) (clk : Nat → Nat)
+    (hfirst : (new F rate cap maxI limit t0).intervalInstr ≤ maxI)
+    (h0 : clk 0 ≤ t0 + tmax) (hstep : ∀ i, clk (i + 1) ≤ clk i + tmax)
+    (n : Nat)
+    (hbefore : ∀ j, j < n → pollAt F clk (new F rate cap maxI limit t0) j ≠ .timeout)
+    (hn : pollAt F clk (new F rate cap maxI limit t0) n = .timeout) :
+    clk n ≤ (t0 + limit) + (maxI + 1) * tmax := by
+  have hinv : ∀ m, m ≤ n → InvC maxI (t0 + limit) tmax clk m (runN F clk m (new F rate cap maxI limit t0) 0) := by
+    intro m
+    induction m with
+    | zero =>
+      intro _
+      show InvC maxI (t0 + limit) tmax clk 0 (new F rate cap maxI limit t0)
+      refine ⟨rfl, rfl, by simp [new], hfirst, by simp [new], ?_⟩
+      simp [new]; exact h0
+    | succ m ih =>
+      intro hm
+      have ihm := ih (by omega)
+      rw [runN_succ_last]
+      simp only [Nat.zero_add]
+      exact invC_step F maxI (t0 + limit) tmax clk hstep m _ ihm (hbefore m (by omega))
+  have hI := hinv n (Nat.le_refl n)
+  generalize hS : runN F clk n (new F rate cap maxI limit t0) 0 = s at hI
+  have hn' : (check F s (clk n)).2 = .timeout := by rw [← hS]; exact hn
+  have heq : s.sinceLast = s.intervalInstr := by
+    rcases check_cases F s (clk n) with ⟨_, h2⟩ | ⟨h1, _, _⟩ | ⟨_, _, h2⟩
+    · rw [h2] at hn'; cases hn'
+    · have := hI.le; omega
+    · rw [h2] at hn'; cases hn'
+  have hhi := hI.hi
+  rw [heq] at hhi
+  have hmul : (s.intervalInstr + 1) * tmax ≤ (maxI + 1) * tmax :=
+    Nat.mul_le_mul_right tmax (by have := hI.cap; omega)
+  have := hI.last
+  omega
+
+/-- … and under the same hypotheses the timeout IS reported once the clock has passed the deadline
+(liveness needs no hypothesis at all: `eventually_detected`), so together: a run whose clock passes
+the deadline ends with a timeout reported within `(maxInterval + 1) · tmax` after it. -/
+theorem detected_within_capped_slack (F : TOps) (rate cap : UInt64) (maxI : Nat) (limit t0 tmax : Nat)
+    (clk : Nat → Nat)
+    (hfirst : (new F rate cap maxI limit t0).intervalInstr ≤ maxI)
+    (h0 : clk 0 ≤ t0 + tmax) (hstep : ∀ i, clk (i + 1) ≤ clk i + tmax)
+    (n0 : Nat) (hpass : ∀ n, n0 ≤ n → t0 + limit ≤ clk n) :
+    ∃ n, pollAt F clk (new F rate cap maxI limit t0) n = .timeout ∧
+      t0 + limit ≤ clk n ∧ clk n ≤ (t0 + limit) + (maxI + 1) * tmax := by
+  obtain ⟨n1, _, _, hn1⟩ := eventually_detected F clk (new F rate cap maxI limit t0) n0 (by simp [new])
+    (fun n hn => by have := hpass n hn; simpa [new] using this)
+  obtain ⟨n, _, hn, hmin⟩ :=
+    least_of_exists (fun k => pollAt F clk (new F rate cap maxI limit t0) k = .timeout) n1 hn1
+  exact ⟨n, hn, never_early_run F rate cap maxI limit t0 clk n hn,
+    bounded_slack_capped F rate cap maxI limit t0 tmax clk hfirst h0 hstep n hmin hn⟩
+
+example : ∃ n, pollAt ⟨fun _ => 0, fun _ _ => 0, fun _ _ => 0, fun _ _ => 0, fun _ _ => false,
+      fun _ => false, fun _ => 0⟩ (fun j => 10 + 3 * (j + 1))
+      (new ⟨fun _ => 0, fun _ _ => 0, fun _ _ => 0, fun _ _ => 0, fun _ _ => false,
+      fun _ => false, fun _ => 0⟩ 0 0 1000 20 10) n = .timeout ∧
+      (fun j => 10 + 3 * (j + 1)) n ≤ (10 + 20) + (1000 + 1) * 3 := by
+  obtain ⟨n, h1, _, h3⟩ := detected_within_capped_slack ⟨fun _ => 0, fun _ _ => 0, fun _ _ => 0, fun _ _ => 0,
+    fun _ _ => false, fun _ => false, fun _ => 0⟩ 0 0 1000 20 10 3 (fun j => 10 + 3 * (j + 1))
+    (by simp [new, asUsize]) (by simp) (fun i => by omega) 20 (fun n hn => by simp; omega)
+  exact ⟨n, h1, h3⟩
 
 /-- The first `interval_instructions` checks of an entry never read the clock — whatever the clock
 says, in particular however far past the deadline it is. Every `execute_instructions` invocation
 starts with such a blind window of its own (`new` is called per entry, with deadline `now + limit`):
 the model-level content of F-C08-2. -/
-theorem first_interval_unobserved (F : TOps) (rate cap : UInt64) (limit t0 : Nat) (clk : Nat → Nat) (n : Nat)
-    (hn : n < (new F rate cap limit t0).intervalInstr) :
-    pollAt F clk (new F rate cap limit t0) n = .skip := by
-  have h := (poll_gap F clk (new F rate cap limit t0) 0 (by simp [new])).1 n (by simpa [new] using hn)
+theorem first_interval_unobserved (F : TOps) (rate cap : UInt64) (maxI : Nat) (limit t0 : Nat) (clk : Nat → Nat) (n : Nat)
+    (hn : n < (new F rate cap maxI limit t0).intervalInstr) :
+    pollAt F clk (new F rate cap maxI limit t0) n = .skip := by
+  have h := (poll_gap F clk (new F rate cap maxI limit t0) 0 (by simp [new])).1 n (by simpa [new] using hn)
   simpa [pollAt] using h
 
 /-- the first interval is the capped baseline, exactly as `new` computes it: `min(rate · limit/10 s, cap)`
 cast to `usize` (`cap = 100.0` since 0c1b674; before, the uncapped baseline made the first clock
 read of a loop of expensive instructions arbitrarily late: F-C08-6) -/
-theorem first_interval_formula (F : TOps) (rate cap : UInt64) (limit t0 : Nat) :
-    (new F rate cap limit t0).intervalInstr =
+theorem first_interval_formula (F : TOps) (rate cap : UInt64) (maxI : Nat) (limit t0 : Nat) :
+    (new F rate cap maxI limit t0).intervalInstr =
       asUsize F (fmin F (F.mul rate (secsF F (limit / 10))) cap) ∧
-    (new F rate cap limit t0).intervalInstr ≤ usizeMax := by
+    (new F rate cap maxI limit t0).intervalInstr ≤ usizeMax := by
   constructor
   · rfl
   · simp [new, asUsize]; omega
 
 /-- a nested entry is armed from its own start time: its deadline ignores the enclosing entry's -/
-theorem rearmed_per_entry (F : TOps) (rate cap : UInt64) (limit tOuter tInner : Nat) :
-    (new F rate cap limit tInner).deadline = tInner + limit ∧
-    (new F rate cap limit tInner).deadline = (new F rate cap limit tOuter).deadline + (tInner - tOuter) ∨
+theorem rearmed_per_entry (F : TOps) (rate cap : UInt64) (maxI : Nat) (limit tOuter tInner : Nat) :
+    (new F rate cap maxI limit tInner).deadline = tInner + limit ∧
+    (new F rate cap maxI limit tInner).deadline = (new F rate cap maxI limit tOuter).deadline + (tInner - tOuter) ∨
       tInner < tOuter := by
   by_cases h : tInner < tOuter
   · exact Or.inr h
@@ -274,9 +348,9 @@ produce interval 0, a clock ticking every 3 units): the conclusion is then a con
 example : ∃ n, pollAt ⟨fun _ => 0, fun _ _ => 0, fun _ _ => 0, fun _ _ => 0, fun _ _ => false,
       fun _ => false, fun _ => 0⟩ (fun j => 10 + 3 * (j + 1))
       (new ⟨fun _ => 0, fun _ _ => 0, fun _ _ => 0, fun _ _ => 0, fun _ _ => false,
-      fun _ => false, fun _ => 0⟩ 0 0 20 10) n = .timeout ∧ 10 + 20 ≤ (fun j => 10 + 3 * (j + 1)) n := by
+      fun _ => false, fun _ => 0⟩ 0 0 1000 20 10) n = .timeout ∧ 10 + 20 ≤ (fun j => 10 + 3 * (j + 1)) n := by
   obtain ⟨n, h1, _, h3, _⟩ := detected_within_slack ⟨fun _ => 0, fun _ _ => 0, fun _ _ => 0, fun _ _ => 0,
-    fun _ _ => false, fun _ => false, fun _ => 0⟩ 0 0 20 10 3 3 (fun j => 10 + 3 * (j + 1))
+    fun _ _ => false, fun _ => false, fun _ => 0⟩ 0 0 1000 20 10 3 3 (fun j => 10 + 3 * (j + 1))
     ⟨by decide, by decide, by simp, by simp, fun i => by omega, fun i => by omega⟩
     (fun j _ => by simp [UpdateSound, nextInterval, asUsize])
   exact ⟨n, h1, h3⟩
